@@ -101,84 +101,86 @@ type iterInfo struct {
 }
 
 type FnCtx struct {
-	eng            *Engine
-	fn             *ssa.Function
-	con            *Contract
-	key            string
-	sorts          *sorts
-	declSet        map[string]bool
-	decls          []string
-	ctx            []string
-	obligs         []*Oblig
-	vals           map[ssa.Value]string
-	tuples         map[ssa.Value][]string
-	addrs          map[ssa.Value]*addr
-	heapSort       map[string]string
-	heapOrder      []string
-	entry          heapState
-	out            map[*ssa.BasicBlock]heapState
-	reach          map[*ssa.BasicBlock]string
-	edges          map[[2]int]string
-	loops          map[*ssa.BasicBlock]*loopInfo
-	loopList       []*loopInfo
-	order          []*ssa.BasicBlock
-	nfresh         int
-	locals         map[*ssa.Alloc]string
-	iters          map[ssa.Value]*iterInfo
-	closures       map[ssa.Value]*ssa.MakeClosure
-	defers         []*ssa.Defer
-	strlits        map[string]string
-	knownHeaps     map[string]string // from a previous pass: declare all at entry
-	knownLocals    map[string]string
-	cur            heapState
-	curBlock       *ssa.BasicBlock
-	names          map[string]bool
-	opts           *fnOpts
-	sweep          bool // emit safety obligations
-	usedContracts  map[string]bool
-	usedExternal   map[string]bool
-	notes          []string
-	retCount       int
-	jsonMode       bool
-	nameCount      map[string]int
-	prevHeap       map[string]string
-	uncontracted   map[string]bool
-	usedSpecFuncs  map[string]bool
-	boundFuncs     map[ssa.Value]*ssa.Function
-	state          *fnState
-	axioms         []axiomInst
-	usedAxioms     []string
-	attachErr      string
-	dropped        []string // written loop invariants that do not attach to the current loop
-	requiresTerms  []string
-	reqPrefix      int
-	houdiniObs     []*houdiniOb
-	pendingHavoc   []string
-	finalized      bool
-	lemmaUsesOnce  int
-	using          map[string]bool
-	modRefs        map[string][]string
-	usedLemmaCalls map[string]bool
-	nclosures      int
-	cellCache      map[string]*ssa.Alloc
-	sobSeen        map[string]bool
-	captured       map[*ssa.Alloc]bool
-	retOrd         map[*ssa.Return]int
-	volatile       map[string]bool
-	extraGuard     string
-	deferFlags     []string
-	curBindings    []ssa.Value
-	curCallee      *ssa.Function
-	strConsts      map[string]bool
-	usedLemmas     []string
-	ctxBlock       []int
-	ancCache       map[int]map[int]bool
-	ancMu          sync.Mutex
-	covers         []*Oblig
-	readSnaps      map[string]heapState
-	readSnapOrder  []string
-	inAxiom        bool
-	nglobals       int
+	eng             *Engine
+	fn              *ssa.Function
+	con             *Contract
+	key             string
+	sorts           *sorts
+	declSet         map[string]bool
+	decls           []string
+	ctx             []string
+	obligs          []*Oblig
+	vals            map[ssa.Value]string
+	tuples          map[ssa.Value][]string
+	addrs           map[ssa.Value]*addr
+	heapSort        map[string]string
+	heapOrder       []string
+	entry           heapState
+	out             map[*ssa.BasicBlock]heapState
+	reach           map[*ssa.BasicBlock]string
+	edges           map[[2]int]string
+	loops           map[*ssa.BasicBlock]*loopInfo
+	loopList        []*loopInfo
+	order           []*ssa.BasicBlock
+	nfresh          int
+	locals          map[*ssa.Alloc]string
+	iters           map[ssa.Value]*iterInfo
+	closures        map[ssa.Value]*ssa.MakeClosure
+	defers          []*ssa.Defer
+	strlits         map[string]string
+	knownHeaps      map[string]string // from a previous pass: declare all at entry
+	knownLocals     map[string]string
+	cur             heapState
+	curBlock        *ssa.BasicBlock
+	names           map[string]bool
+	opts            *fnOpts
+	sweep           bool // emit safety obligations
+	usedContracts   map[string]bool
+	usedExternal    map[string]bool
+	notes           []string
+	retCount        int
+	jsonMode        bool
+	nameCount       map[string]int
+	prevHeap        map[string]string
+	uncontracted    map[string]bool
+	usedSpecFuncs   map[string]bool
+	boundFuncs      map[ssa.Value]*ssa.Function
+	state           *fnState
+	axioms          []axiomInst
+	usedAxioms      []string
+	attachErr       string
+	dropReturnHints bool
+	usesStrLt       bool     // a byte-wise string comparison occurs: the order axioms on strings are relevant
+	dropped         []string // written loop invariants that do not attach to the current loop
+	requiresTerms   []string
+	reqPrefix       int
+	houdiniObs      []*houdiniOb
+	pendingHavoc    []string
+	finalized       bool
+	lemmaUsesOnce   int
+	using           map[string]bool
+	modRefs         map[string][]string
+	usedLemmaCalls  map[string]bool
+	nclosures       int
+	cellCache       map[string]*ssa.Alloc
+	sobSeen         map[string]bool
+	captured        map[*ssa.Alloc]bool
+	retOrd          map[*ssa.Return]int
+	volatile        map[string]bool
+	extraGuard      string
+	deferFlags      []string
+	curBindings     []ssa.Value
+	curCallee       *ssa.Function
+	strConsts       map[string]bool
+	usedLemmas      []string
+	ctxBlock        []int
+	ancCache        map[int]map[int]bool
+	ancMu           sync.Mutex
+	covers          []*Oblig
+	readSnaps       map[string]heapState
+	readSnapOrder   []string
+	inAxiom         bool
+	nglobals        int
 }
 
 type fnOpts struct {
